@@ -28,15 +28,12 @@ type stringRange struct {
 }
 
 func (s *stepRange) next(scope *scope, loopVarName string) bool {
-	if s.step > 0 && s.cur >= s.stop {
-		return false
+	if (s.step > 0 && s.cur < s.stop) || (s.step < 0 && s.cur > s.stop) {
+		scope.update(loopVarName, &numVal{V: s.cur})
+		s.cur += s.step
+		return true
 	}
-	if s.step < 0 && s.cur <= s.stop {
-		return false
-	}
-	scope.update(loopVarName, &numVal{V: s.cur})
-	s.cur += s.step
-	return true
+	return false // also for a NaN start, stop or step
 }
 
 func (a *arrayRange) next(scope *scope, loopVarName string) bool {
